@@ -64,13 +64,34 @@ def r2(ctx, rep):
         raise AnchorMissing("translate_ident_part: match on ident_quoting_style()")
     rows = {last_seg(str(pat_head(a["pat"]))): a for a in m["arms"]}
     c = rows.get("ConditionallyQuoted")
+    # truth table over (matches the bare class, is a keyword): bare output exactly for (true, false); formula, local names and branch order are free
+    import alpha
+    import boolfn
+    A = alpha.Inliner(f)
+    prm = f["params"][0]["name"] if f.get("params") and isinstance(f["params"][0], dict) and "name" in f["params"][0] else "ident"
     ok = False
     if c is not None:
         for i in walk(c["body"]):
-            if i.get("k") == "if":
-                ok = (show(i["c"]) == "(is_bare && !keywords::is_keyword(&ident, &ctx.dialect_enum))"
-                      and show(tail_expr(i["t"])) == "sql_ast::Ident::new(ident)"
-                      and show(tail_expr(i["e"])) == "sql_ast::Ident::with_quote(ctx.dialect.ident_quote(), ident)")
+            if i.get("k") != "if" or i.get("e") is None:
+                continue
+            rows_ok = []
+            try:
+                for bare in (True, False):
+                    for kw in (True, False):
+                        def atom(t, bare=bare, kw=kw):
+                            t = t.replace(" ", "")
+                            if t == f"valid_ident().is_match(&{prm})":
+                                return bare
+                            if t == f"keywords::is_keyword(&{prm},&ctx.dialect_enum)":
+                                return kw
+                            return None
+                        taken = i["t"] if boolfn.ev(i["c"], atom, A) else i["e"]
+                        out = show(tail_expr(taken) if taken.get("k") == "block" else taken)
+                        want = f"sql_ast::Ident::new({prm})" if (bare and not kw) else f"sql_ast::Ident::with_quote(ctx.dialect.ident_quote(), {prm})"
+                        rows_ok.append(out == want)
+                ok = all(rows_ok)
+            except boolfn.Unknown:
+                ok = False
     rep.check(ok, "conditional", "an identifier may be emitted bare only if it matches the bare class AND is not a keyword of the dialect; otherwise it must be quoted with the dialect's quote", file=f["file"], line=f["l"], fn=f["path"])
     a = rows.get("AlwaysQuoted")
     rep.check(a is not None and show(tail_expr(a["body"]) if a["body"].get("k") == "block" else a["body"]) == "sql_ast::Ident::with_quote(ctx.dialect.ident_quote(), ident)", "always",
@@ -85,8 +106,7 @@ def r2(ctx, rep):
                 "the column `a\\\"b` is emitted as \"a\\\"b\" (identifier `a\\`, then stray text)", file=f["file"], line=raw[0]["l"], fn=f["path"])
     else:
         rep.ok("quoted-ident")
-    ib = [n for n in f["body"]["s"] if n.get("k") == "local" and show(n["pat"]) == "is_bare"]
-    rep.check(bool(ib) and show(ib[0]["init"]) == "valid_ident().is_match(&ident)", "is_bare", "is_bare must be the valid_ident() regex test", file=f["file"], line=f["l"], fn=f["path"])
+    rep.check(any(n.get("k") == "mcall" and n["m"] == "is_match" and show(n["r"]) == "valid_ident()" for n in walk(f["body"])), "is_bare", "the bare test must be the valid_ident() regex", file=f["file"], line=f["l"], fn=f["path"])
     # quote characters
     quotes = {}
     for g in syn.fns:
@@ -104,7 +124,11 @@ def r3(ctx, rep):
     syn = ctx.syn
     k = syn.fn("keywords::is_keyword", crate="prqlc")
     txt = show_stmts(k["body"], maxdepth=10)
-    rep.check("let ident = ident.to_ascii_uppercase()" in txt and "sql_keywords().contains(ident.as_str())" in txt and "dialect_keywords(dialect).contains(ident.as_str())" in txt, "lookup",
+    Ak = __import__("alpha").Inliner(k)
+    tl = Ak.show(tail_expr(k["body"]), strip=True).replace(" ", "")
+    kp = [p_["name"] for p_ in k.get("params", []) if isinstance(p_, dict) and "name" in p_] or ["ident", "dialect"]
+    up = f"{kp[0]}.to_ascii_uppercase()"
+    rep.check(tl in (f"(sql_keywords().contains({up})||dialect_keywords({kp[1]}).contains({up}))", f"(dialect_keywords({kp[1]}).contains({up})||sql_keywords().contains({up}))"), "lookup",
               "is_keyword must upper-case the identifier and consult both the shared and the dialect's table", file=k["file"], line=k["l"], fn=k["path"])
     n_words = 0
     for st in syn.statics:
